@@ -429,6 +429,20 @@ func checkAnnotations(c *Ctx, ev *tmpl.Evaluator, scan *packages.Package) {
 		c.Check(bad == "", "C18.R1.vocabulary", "codescan.rxModelOverride › accepts the names the generator writes", "codescan/regexprs.go", "one-letter and longer names are captured",
 			"`swagger:model "+bad+"` is not matched by "+lit+": a definition with that name is generated with the annotation and then left out of the scanned spec")
 	}
+	// the name written after swagger:model is the definition's own name (.OriginalName), not the Go name x-go-name may have given it
+	if l := linearOf(c, ev, "annotations"); l == nil {
+		c.Anchor("C18.R1.vocabulary", "template annotations", "not found")
+	} else {
+		occ := l.Find(regexp.MustCompile(`swagger:model ((?:⟦[^⟧]*⟧)+)`))
+		okName := len(occ) > 0
+		for _, oc := range occ {
+			if !strings.Contains(oc.Match[1], ".OriginalName") {
+				okName = false
+			}
+		}
+		c.Check(okName, "C18.R1.vocabulary", "annotations › swagger:model carries the definition's name", l.Tree.File, ".OriginalName",
+			"the model annotation is written with the Go name (.Name, which x-go-name replaces): scanning the generated models renames the definition and every $ref to it")
+	}
 	annRx := regexp.MustCompile(`swagger:([A-Za-z]+)`)
 	for _, name := range []string{"annotations", "model", "schema", "schemaBody", "structfield", "docstring"} {
 		t := ev.F.Trees[name]
